@@ -316,7 +316,7 @@ fn run_inner(a: &Args, shard: u64, shards: u64) -> Report {
         rep.sample(J::obj([("status_string", J::s("600")), ("expect", J::s("Err on FromStr and SessionResponse::try_from"))]));
         rep.sample(J::obj([("request_map", J::s("{:method: CONNECT, :scheme: https, :protocol: webtransport, :PATH: /, :authority: a}")), ("expect", J::s("rejected: :path missing"))]));
     }
-    let n: u64 = if a.miri { 30 } else if a.thorough { 3_000_000 } else { 150_000 };
+    let n: u64 = if a.miri { 30 } else if a.thorough { 3_000_000 } else { 900_000 };
     for j in 0..n {
         if !mine(j) {
             continue;
